@@ -1,7 +1,7 @@
 (* Cases for the codec payloaders and depacketizers (C08-C15). *)
 From Coq Require Import ZArith List Bool.
 From RTP Require Import Base.Res Base.ListX Base.Own Extract.Value Model.Vp8 Model.H264 Model.H265 Model.Vp9Header Model.Vp9 Model.Av1Pay Model.Av1Depack Model.Av1Legacy Model.Leb128 Model.Obu.
-From RTP Require Spec.Rfc6184.
+From RTP Require Spec.Rfc6184 Spec.Rfc7798 Spec.Rfc7741.
 Import ListNotations.
 Open Scope Z_scope.
 
@@ -84,6 +84,27 @@ Definition t_item (t : tok) : option Rfc6184.item :=
   | TList [TInt 0; TBytes n] => Some (Rfc6184.ISingle n)
   | TList [TInt 1; TInt nri; TList us] => option_map (Rfc6184.IStapA nri) (opt_map t_bytes us)
   | TList [TInt 2; TInt h; TList cs] => option_map (Rfc6184.IFua h) (opt_map t_bytes cs)
+  | _ => None
+  end.
+
+(* an RFC 7798 form: [0 ty layer tid donl xpayload] | [1 layer tid donl xfirst [[dond xunit]...]]
+   | [2 layer tid s e futype donl xpayload] | [3 layer tid a ctype phs f0 f1 f2 y xphes xpayload] *)
+Definition t_form (t : tok) : option Rfc7798.form :=
+  match t with
+  | TList [TInt 0; TInt ty; TInt layer; TInt tid; TInt donl; TBytes pl] => Some (Rfc7798.FSingle ty layer tid donl pl)
+  | TList [TInt 1; TInt layer; TInt tid; TInt donl; TBytes first; TList os] =>
+    option_map (Rfc7798.FAgg layer tid donl first)
+      (opt_map (fun o => match o with TList [TInt dond; TBytes u] => Some (dond, u) | _ => None end) os)
+  | TList [TInt 2; TInt layer; TInt tid; s; e; TInt futype; TInt donl; TBytes pl] =>
+    match t_bool s, t_bool e with
+    | Some s, Some e => Some (Rfc7798.FFu layer tid s e futype donl pl)
+    | _, _ => None
+    end
+  | TList [TInt 3; TInt layer; TInt tid; a; TInt ctype; TInt phs; f0; f1; f2; y; TBytes phes; TBytes pl] =>
+    match t_bool a, t_bool f0, t_bool f1, t_bool f2, t_bool y with
+    | Some a, Some f0, Some f1, Some f2, Some y => Some (Rfc7798.FPaci layer tid a ctype phs f0 f1 f2 y phes pl)
+    | _, _, _, _, _ => None
+    end
   | _ => None
   end.
 
@@ -225,6 +246,22 @@ Definition dispatch_codecs (op : Z) (args : list tok) : value :=
     | None => VBad
     end
   | 1102, [TList ps] => VList (vp8_unmarshal_seq vp8_fresh ps)
+  | 1104, [n; s; TInt pid; x; i; m; TInt picid; l; TInt tl0; t; k; TInt tid; y; TInt keyidx; TBytes rest] =>
+    (* the Spec/Rfc7741.v encoder run on the descriptor, the receiver model on descriptor ++ rest
+       and on every strict prefix of the descriptor *)
+    match t_bool n, t_bool s, t_bool x, t_bool i, t_bool m, t_bool l, t_bool t, t_bool k, t_bool y with
+    | Some n, Some s, Some x, Some i, Some m, Some l, Some t, Some k, Some y =>
+      let e := Rfc7741.mkDext (if i then Some (m, picid) else None) (if l then Some tl0 else None)
+                              (if t then Some (tid, y) else None) (if k then Some keyidx else None) in
+      let d := Rfc7741.mkDesc n s pid (if x then Some e else None) in
+      let wire := Rfc7741.encode_desc d in
+      VList [VBytes (wire ++ rest);
+             VList (vp8_unmarshal_seq vp8_fresh [TBytes (wire ++ rest)]);
+             VList (map (fun j => match vp8_unmarshal vp8_fresh (Some (take (Z.of_nat j) wire)) with
+                                  | Ok _ => VInt 0 | Err _ => VInt 1 | Panic => VInt 2 end)
+                        (seq 0 (length wire)))]
+    | _, _, _, _, _, _, _, _, _ => VBad
+    end
   | 1301, [TInt mtu; p] =>
     match t_optbytes p with
     | Some ob => v_res (fun ps => VList (map VBytes ps)) (av1_payload mtu (match ob with Some l => l | None => [] end))
@@ -257,6 +294,14 @@ Definition dispatch_codecs (op : Z) (args : list tok) : value :=
     match t_bool donl with
     | Some d => VList (h265_unmarshal_seq d ps)
     | None => VBad
+    end
+  | 1405, [donl; f] =>
+    (* the Spec/Rfc7798.v encoder run on the form, then the parser model on its bytes *)
+    match t_bool donl, t_form f with
+    | Some d, Some f =>
+      let bs := Rfc7798.encode d f in
+      VList [VBytes bs; VList (h265_unmarshal_seq d [TBytes bs])]
+    | _, _ => VBad
     end
   | 1403, [TInt h] => v_nh h
   | 1404, [TInt b] => VList [VBool (fu_s b); VBool (fu_e b); VInt (fu_type b)]
